@@ -3,7 +3,8 @@
  * WHICH 0 starts_with, 1 ends_with: prefix/suffix of PL symbolic bytes (PL cell, may exceed LEN)
  *       2 toupper, 3 tolower: ASCII letters mapped, every other byte (incl. >= 0x80 and NUL) unchanged
  *       4 str_replace_all(s, target, replacement): target of TL in {1,2} non-NUL symbolic bytes, replacement of RL in {0,1,2}
- *         non-NUL symbolic bytes (C strings); leftmost non-overlapping occurrences replaced, scan resumes after the match
+ *         non-NUL symbolic bytes (C strings); leftmost non-overlapping occurrences OF THE ORIGINAL STRING replaced, scan resumes
+ *         after the match, replaced text is never rescanned; result length + ONE symbolic result position compared
  *       5 skip_whitespace, 6 skip_non_whitespace, 7 skip_word (= skip_whitespace(skip_non_whitespace)); both the std::string and
  *         the const char* overload (symbolic choice), offset symbolic in [0, length]; for the C-string overload the string
  *         ends at its first NUL. */
@@ -54,17 +55,22 @@ void harness(void) {
   t[TL] = 0; rp[RL] = 0;
   for (int i = 0; i < TL; i++) ASSUME(t[i] != 0);
   for (int i = 0; i < RL; i++) ASSUME(rp[i] != 0);
+  /* reference: left-to-right scan of the ORIGINAL string, non-overlapping occurrences, replaced text is never rescanned.
+   * Constant loop bounds (the solver unwinds every loop to --unwind); `skip` = bytes of a matched target still to pass. */
   uint64_t rn = 0;
-  for (uint64_t i = 0; i < LEN;) {
+  int skip = 0;
+  for (int i = 0; i < LEN; i++) {
+    if (skip) { skip--; continue; }
     int hit = i + TL <= LEN;
     if (hit) for (int k = 0; k < TL; k++) if (s[i + k] != t[k]) hit = 0;
-    if (hit) { for (int k = 0; k < RL; k++) ref[rn++] = rp[k]; i += TL; }
-    else ref[rn++] = s[i++];
+    if (hit) { for (int k = 0; k < RL; k++) ref[rn++] = rp[k]; skip = TL - 1; }
+    else ref[rn++] = s[i];
   }
+  uint64_t idx = in_range(0, CAP - 1); /* ONE symbolic checked position (any wrong byte is some idx) */
   int64_t r = w_replace_all(s, LEN, t, rp, out, CAP);
   OBS(r);
   ASSERT(r == (int64_t)rn, "replace-all result has the reference length");
-  if (r == (int64_t)rn) for (uint64_t i = 0; i < rn; i++) ASSERT(out[i] == ref[i], "replace-all result equals the reference");
+  if (r == (int64_t)rn && idx < rn) ASSERT(out[idx] == ref[idx], "replace-all result equals the reference");
 #else
   uint32_t cstr = in_bool();
   uint64_t n = LEN;
